@@ -8,6 +8,7 @@ import (
 	"bytes"
 	"context"
 	"crypto/sha256"
+	"errors"
 	"fmt"
 	"io"
 	"net/http"
@@ -85,6 +86,9 @@ type Op struct {
 	Legacy    bool
 	Sibling   bool // C01: sent to the sibling log of the same process (its own key and backend)
 	SlowWrite bool // the client reads the response slowly: Write parks before taking the bytes
+	// WriteFailed: the client's connection broke while the response was being written (a Write returned an error,
+	// possibly after taking part of the bytes): nobody received this response, so nobody judges it
+	WriteFailed bool
 
 	mu        sync.Mutex
 	Calls     []*BackendCall
@@ -601,7 +605,7 @@ func Serve(s *kernel.Sim, inst *ctfe.Instance, prefix string, op *Op, parent con
 	rec := httptest.NewRecorder()
 	var rw http.ResponseWriter = rec
 	if op.SlowWrite {
-		rw = &slowWriter{ResponseRecorder: rec, s: s, ctx: ctx, party: op.Party}
+		rw = &slowWriter{ResponseRecorder: rec, s: s, ctx: ctx, party: op.Party, op: op}
 	}
 	h, ok := inst.Handlers[prefix+op.Path]
 	func() {
@@ -632,11 +636,25 @@ type slowWriter struct {
 	s     *kernel.Sim
 	ctx   context.Context
 	party string
+	op    *Op
 }
 
 func (w *slowWriter) Write(b []byte) (int, error) {
-	if _, err := w.s.Seam(nil, w.party, "http.write", "", nil); err != nil {
+	d, err := w.s.Seam(nil, w.party, "http.write", "", nil)
+	if err != nil {
 		return 0, err
+	}
+	if d.Kind == "http.write-fail" {
+		// the connection breaks after n < len(b) bytes
+		n := 0
+		if len(b) > 0 {
+			n = int(d.N) % len(b)
+		}
+		w.ResponseRecorder.Write(b[:n])
+		w.op.mu.Lock()
+		w.op.WriteFailed = true
+		w.op.mu.Unlock()
+		return n, errors.New("write tcp 192.0.2.1:443->192.0.2.7:51234: write: broken pipe")
 	}
 	return w.ResponseRecorder.Write(b)
 }
